@@ -274,7 +274,7 @@ PROPS['C11'] = dict(
                 witnesses=['computed', 'diagonal_checked'], validate=[{'C': 3}]),
            dict(name='gfpart_diag_1x2', harness='h_gfpart', defs=['OUTER=1', 'INNER=2', 'REGIME=4'], split={'C': R(4)},
                 witnesses=['computed', 'diagonal_checked']),
-           dict(name='gfpart_diag_2x2', harness='h_gfpart', defs=['OUTER=2', 'INNER=2', 'REGIME=4'], split={'C': R(16)}, tiers=[T],
+           dict(name='gfpart_diag_2x2', harness='h_gfpart', defs=['OUTER=2', 'INNER=2', 'REGIME=4'], split={'C': R(16)}, tiers=[T], job_timeout=1200,
                 witnesses=['computed', 'diagonal_checked'], validate=[{'C': 15}])],
 )
 
